@@ -80,6 +80,11 @@ func runW6(t *testing.T, job *Job, seed uint64, rp *Replay) RunOut {
 	} else {
 		nPhys := r.Range(1, 5)
 		n := r.Range(1, 12)
+		if r.Chance(0.25) {
+			// a hub full of devices discovered in one batch
+			nPhys = r.Range(6, 24)
+			n = r.Range(nPhys, 3*nPhys)
+		}
 		for i := 0; i < n; i++ {
 			row := capRows[r.Intn(len(capRows))]
 			var caps []int
